@@ -285,13 +285,13 @@ def encode_subject(rng):
         return rng.pick([d, [d, "b"], {"x": d}, {"k": [d, 1]}, [d], {"x": d, "y": "plain"}])
     k = rng.below(8)
     if k == 0:
-        return rng.pick(["s", 1, True, F("0.5"), "", "é", "a b"])
+        return rng.pick(["s", 1, True, F("0.5"), "", "é", "a b", "<a href=\"x\">&amp;</a>", "a<b>c&d"])
     if k == 1:
         return [rng.pick(["a", 1, True, F("1.5"), ""]) for _ in range(rng.below(4))]
     if k == 2:
         return [[1, 2], 3, ["a"], []]
     if k == 3:
-        return {"a": 1, "b": "x", "c": ""}
+        return {"a": 1, "b": rng.pick(["x", "<x>", "p&q"]), "c": ""}
     if k == 4:
         return rng.pick([{"k": ["v1", "v2"], "e": "", "n": 5}, {"token": "YWJjZA==", "op": "=", "e": "", "l": ["a=", "b:", "="]},
                          {"a": "1=", "b": 2, "c": ":", "d": "x::"}])
